@@ -371,16 +371,27 @@ pub enum Next {
 	Err(String),
 }
 
-/// Drive a crate Reader: up to `max_calls` deserialize_next calls
+/// Drive a crate Reader: up to `max_calls` calls. The public entry points that are documented to do
+/// the same job (`deserialize_seed_next`, `deserialize_next::<T>`, the `deserialize::<T>()` iterator and,
+/// for slice input, `deserialize_next_borrowed` / `deserialize_borrowed`) take turns call by call,
+/// starting from a position derived from `salt` (no tape bytes are consumed for the choice).
 pub fn drive_reader<'de, R>(rd: &mut Reader<R>, cctx: &CapCtx, ms: &MSchema, max_calls: usize) -> Vec<Next>
 where
 	R: serde_avro_fast::de::read::ReadSlice<'de> + serde_avro_fast::de::read::take::Take + std::io::BufRead,
 	<R as serde_avro_fast::de::read::take::Take>::Take: serde_avro_fast::de::read::ReadSlice<'de> + std::io::BufRead,
 {
+	drive_calls(max_calls, |i| match (max_calls + i) % 3 {
+		0 => rd.deserialize_seed_next(cctx.seed(ms)),
+		1 => with_capture_tls(cctx, ms, || rd.deserialize_next::<TlsCaptured>()).map(|o| o.map(|v| v.0)),
+		_ => with_capture_tls(cctx, ms, || rd.deserialize::<TlsCaptured>().next()).transpose().map(|o| o.map(|v| v.0)),
+	})
+}
+
+fn drive_calls(max_calls: usize, mut call: impl FnMut(usize) -> Result<Option<MValue>, serde_avro_fast::de::DeError>) -> Vec<Next> {
 	let mut out = Vec::new();
 	let mut ends = 0;
-	for _ in 0..max_calls {
-		match rd.deserialize_seed_next(cctx.seed(ms)) {
+	for i in 0..max_calls {
+		match call(i) {
 			Ok(Some(v)) => out.push(Next::Value(v)),
 			Ok(None) => {
 				out.push(Next::End);
@@ -398,7 +409,13 @@ where
 pub fn read_slice(env: &Env, ms: &MSchema, bytes: &[u8], cfg: &CapCfg, max_calls: usize) -> Result<(Vec<Next>, CapStats), String> {
 	let cctx = CapCtx::new(env, cfg.clone(), Some(bytes));
 	let mut rd = Reader::from_slice(bytes).map_err(|e| e.to_string())?;
-	let r = drive_reader(&mut rd, &cctx, ms, max_calls);
+	let r = drive_calls(max_calls, |i| match (bytes.len() + i) % 5 {
+		0 => rd.deserialize_seed_next(cctx.seed(ms)),
+		1 => with_capture_tls(&cctx, ms, || rd.deserialize_next::<TlsCaptured>()).map(|o| o.map(|v| v.0)),
+		2 => with_capture_tls(&cctx, ms, || rd.deserialize::<TlsCaptured>().next()).transpose().map(|o| o.map(|v| v.0)),
+		3 => with_capture_tls(&cctx, ms, || rd.deserialize_next_borrowed::<TlsCaptured>()).map(|o| o.map(|v| v.0)),
+		_ => with_capture_tls(&cctx, ms, || rd.deserialize_borrowed::<TlsCaptured>().next()).transpose().map(|o| o.map(|v| v.0)),
+	});
 	let st = cctx.stats.borrow().clone();
 	Ok((r, st))
 }
